@@ -67,7 +67,7 @@ func slotWorkloads(c *chk.Ctx, label string, n int) []*slotJob {
 func c06(args []string) {
 	c := chk.New("C06", "exploration", args)
 	c.Build(false)
-	c.Rule("contention workloads: maxConcurrentTasks in {1,2,3,4,6,8} (and NumCPU+4.. with a process that needs all slots and one that needs NumCPU+1), 2-4 processes with CoresPerTask drawn from 1..max, half of the command processes wrapped through Prepend, about 3*max simultaneously ready tasks of 15-60 ms (commands and Go functions), skipped tasks mixed in, an optional streaming producer/consumer pair, one long-wait scenario (a task waiting > 10 s for a slot); oracles = (1) sweep line over the commands' own CLOCK_MONOTONIC start/end stamps weighted by CoresPerTask, (2) shadow slot counter updated under the hook mutex at acquisition/release, (3) porcupine linearizability of the Acquire(k)/Release(k) history against a sequential counting semaphore. distinct_nontrivial = runs whose observed weighted overlap reached max (real contention), distinct by (max, cores mix, interleaving signature)")
+	c.Rule("contention workloads: maxConcurrentTasks in {1,2,3,4,6,8} (and NumCPU+4.. with a process that needs all slots and one that needs NumCPU+1), 2-4 processes with CoresPerTask drawn from 1..max, half of the command processes wrapped through Prepend, about 3*max simultaneously ready tasks of 15-60 ms (commands and Go functions), skipped tasks mixed in, an optional streaming producer/consumer pair, one scenario with commands whose work is done by a helper outliving them, one long-wait scenario (a task waiting > 10 s for a slot); oracles = (1) sweep line over the commands' own CLOCK_MONOTONIC start/end stamps weighted by CoresPerTask, (2) shadow slot counter updated under the hook mutex at acquisition/release, (3) porcupine linearizability of the Acquire(k)/Release(k) history against a sequential counting semaphore. distinct_nontrivial = runs whose observed weighted overlap reached max (real contention), distinct by (max, cores mix, interleaving signature)")
 	c.Assume("a command's [start,end] interval lies inside its task's slot-holding interval, so the weighted overlap is a lower bound of slot usage (sound)", "CoresPerTask <= maxConcurrentTasks")
 	jobs := slotWorkloads(c, "c06", c.Pick(48, 500))
 	// long-wait scenario: three tasks of ~10.6 s on 2 slots, so that one task waits > 10 s for its slot
@@ -75,6 +75,16 @@ func c06(args []string) {
 		rng := c.Rand("c06-long")
 		s, bh := gen.Contention(rng, "longwait", gen.ContentionOpts{Max: 2, Procs: 3, TasksPer: 1, SleepLo: 10600, SleepHi: 10600, CoresFn: func(int) int { return 1 }})
 		jobs = append(jobs, &slotJob{s, bh, Cfg{Buf: 128, Procs: 4}, "longwait"})
+	}
+	// commands whose work is done by a helper that outlives the command itself (it holds the command's stdout): the
+	// slot stays taken until the helper is done. One slot, three such tasks of 1.5 s.
+	{
+		rng := c.Rand("c06-bg")
+		s, bh := gen.Contention(rng, "bghelper", gen.ContentionOpts{Max: 1, Procs: 1, TasksPer: 3, SleepLo: 1, SleepHi: 1, CoresFn: func(int) int { return 1 }})
+		for k := range bh {
+			bh[k] = map[string]string{"bgwrite": "1", "pause": "1500", "size": "2000"}
+		}
+		jobs = append(jobs, &slotJob{s, bh, Cfg{Buf: 128, Procs: 4}, "background-helper"})
 	}
 	// more slots and more cores per task than the machine has CPUs: slots are bookkeeping, not CPUs
 	for r := 0; r < c.Pick(2, 6); r++ {
